@@ -277,6 +277,10 @@ def parse_term(t):
     else:
         m = re.match(r'^(.*) -> (unwind.*)$', t)
         if m: body, unw = m.group(1), _unwind_action(m.group(2))
+        else:
+            # diverging call whose only successor is its cleanup block
+            m = re.match(r'^(.* = .*\)) -> (bb\d+)$', t)
+            if m: body, unw = m.group(1), ('goto', m.group(2))
     if body is None: raise Unmodelled('terminator ' + t)
     cut = find_top(body, ' = ')
     if cut < 0: raise Unmodelled('call terminator ' + t)
